@@ -88,7 +88,7 @@ let explore w64 nt0 max_ticks max_depth =
   let seen = Hashtbl.create 4096 in
   let states = ref 0 and terminals = ref 0 and bad = ref 0 and cut = ref 0 and maxd = ref 0 and witness = ref "" and cycles = ref 0 in
   let rec go nt ticks depth path =
-    let key = (Marshal.to_string nt [], ticks) in
+    let key = (Digest.string (Marshal.to_string nt [Marshal.No_sharing]), ticks) in
     (match Hashtbl.find_opt seen key with Some true -> incr cycles | _ -> ());
     if not (Hashtbl.mem seen key) then begin
       Hashtbl.add seen key true; incr states;
